@@ -2,7 +2,11 @@ import OntVerif.Model.KV
 /-! Line driver for C04: `L op;op;…` on a `CacheDB` over an `OverlayDB` over a memory LevelDB store.
 Ops: `s:k:v` store.Put (pre-population) · `p:k:v` `d:k` `g:k` `i:prefix:n` `c` `r` on the cache (keys without the
 ST_STORAGE byte) · `bp:k:v` `bd:k` `bg:k` `bi:prefix:n` `bc` `bk` `br` on the overlay (raw keys). `n` = number of
-elements taken before the iterator is released (`a` = drained). -/
+elements taken before the iterator is released (`a` = drained).
+Deferred iterators: `io:id:prefix` / `bo:id:prefix` = NewIterator on the cache / overlay, kept open under `id` while other
+ops run; `in:id:n` = First/Next for `n` elements, then Release. The in-memory layers are walked when `First()` runs (the
+skip-list iterator seeks lazily, the MemDB objects are reset in place), the LevelDB iterator reads the snapshot taken at
+`NewIterator`: an open iterator = prefix captured at creation + store snapshot. -/
 namespace OntVerif.Driver.C04
 open OntVerif.Util OntVerif.Model.KV
 
@@ -10,6 +14,21 @@ def showKVs (l : List KV) : String :=
   if l.isEmpty then "-" else String.intercalate "," (l.map fun e => s!"{hexW e.1}={hexW e.2}")
 
 def parseN (s : String) : Option Nat := if s == "a" then some 1000000 else s.toNat?
+
+/-- an open iterator: cache level?, prefix, store snapshot -/
+structure OpenIt where
+  id : String
+  cacheLevel : Bool
+  pfx : Bytes
+  snap : Store
+
+structure St where
+  c : Cache
+  its : List OpenIt := []
+
+def drainOpen (c : Cache) (it : OpenIt) (n : Nat) : List KV :=
+  let c' : Cache := { c with backend := { c.backend with store := it.snap } }
+  if it.cacheLevel then c'.iterate it.pfx n else c'.backend.iterate it.pfx n
 
 /-- one op: new state and an optional observation -/
 def stepOp (c : Cache) (s : String) : Option (Cache × Option String) :=
@@ -53,18 +72,33 @@ def stepOp (c : Cache) (s : String) : Option (Cache × Option String) :=
   | ["br"] => some (c.step .breset, none)
   | _ => none
 
-def runOps (c : Cache) : List String → List String → Option (Cache × List String)
-  | [], acc => some (c, acc.reverse)
+def stepSt (st : St) (s : String) : Option (St × Option String) :=
+  match s.splitOn ":" with
+  | ["io", id, p] => do
+    let p ← unhex p
+    some ({ st with its := ⟨id, true, p, st.c.backend.store⟩ :: st.its.filter (·.id != id) }, none)
+  | ["bo", id, p] => do
+    let p ← unhex p
+    some ({ st with its := ⟨id, false, p, st.c.backend.store⟩ :: st.its.filter (·.id != id) }, none)
+  | ["in", id, n] => do
+    let n ← parseN n
+    match st.its.find? (·.id == id) with
+    | none => some (st, some "i=none")
+    | some it => some ({ st with its := st.its.filter (·.id != id) }, some s!"i={showKVs (drainOpen st.c it n)}")
+  | _ => (stepOp st.c s).map fun (c', o) => ({ st with c := c' }, o)
+
+def runOps (st : St) : List String → List String → Option (Cache × List String)
+  | [], acc => some (st.c, acc.reverse)
   | o :: r, acc =>
-    match stepOp c o with
+    match stepSt st o with
     | none => none
-    | some (c', none) => runOps c' r acc
-    | some (c', some out) => runOps c' r (out :: acc)
+    | some (st', none) => runOps st' r acc
+    | some (st', some out) => runOps st' r (out :: acc)
 
 def handle (line : String) : String :=
   match fields line with
   | ["L", ops] =>
-    match runOps ⟨[], ⟨[], []⟩⟩ (ops.splitOn ";") [] with
+    match runOps { c := ⟨[], ⟨[], []⟩⟩ } (ops.splitOn ";") [] with
     | none => "bad-op"
     | some (c, outs) =>
       let fin := s!"B={showKVs c.backend.mem} P={showKVs c.backend.store} VB={showKVs (c.backend.iterate [] 1000000)} VT={showKVs (c.iterate [] 1000000)}"
